@@ -77,6 +77,13 @@ def run(chk: Check) -> None:
         for rel, meta in scn["_metas"].items():
             want_m, want_p = Counter(), Counter()
             ok = True
+            # the sum is only owed when neither rule can match the other seed: seeds that import the same module are left out
+            mods = []
+            for key in meta["seeds"].values():
+                sd = by_key2.get(key)
+                mods.append({ln.split()[1].split(".")[0] for ln in (sd.input.split("\n") if sd else []) if ln.strip().startswith(("import ", "from ")) and len(ln.split()) > 1})
+            if len(mods) == 2 and mods[0] & mods[1]:
+                continue
             for cid, key in meta["seeds"].items():
                 sd = by_key2.get(key)
                 d = deltas.delta(sd.input, sd.expected) if sd else None
@@ -90,6 +97,10 @@ def run(chk: Check) -> None:
                 continue
             chk.count()
             chk.nontrivial(("pair", scn["_queue"], rel, meta["order"], tuple(sorted(meta["seeds"].values()))))
+            # two fixes may share or merge their import lines: the sum is taken over the code, not over the imports
+            strip = lambda c: Counter({k: v for k, v in c.items() if not k.startswith("import:")})  # noqa: E731
+            got = (strip(got[0]), strip(got[1]))
+            want_m, want_p = strip(want_m), strip(want_p)
             if (got[0], got[1]) != (want_m, want_p):
                 q = scn["_queue"]
                 chk.violation(f"C16|pair|{q[0].split('/')[-1]}>{q[1].split('/')[-1]}|{'+'.join(v.split('|')[-1] for v in meta['seeds'].values())}|{meta['order']}",
